@@ -49,7 +49,7 @@ func c01Cases(seed int64) []c01Case {
 			BigOneIn: []int{0, 0, 7}[rng.Intn(3)], RewardsOneIn: []int{0, 1, 3}[rng.Intn(3)],
 			RootSha512: rng.Intn(3) == 0, EmptyBlockOneIn: []int{0, 4}[rng.Intn(2)],
 			TinyOneIn: []int{0, 6}[rng.Intn(2)], LegacyFnvOneIn: []int{0, 3}[rng.Intn(2)],
-			VoteOneIn: 4, FailOneIn: 5, V0OneIn: 4, SubsetEvery: []int{0, 7}[rng.Intn(2)],
+			VoteOneIn: 4, FailOneIn: 5, V0OneIn: 4, SplitTxData: rng.Intn(2) == 0, SubsetEvery: []int{0, 7}[rng.Intn(2)],
 			TrailingJunkFrames: []int{0, 0, 2}[rng.Intn(3)],
 			SigEdgeOneIn:       []int{0, 3, 9}[rng.Intn(3)], BlocktimeEdgeOneIn: []int{0, 4}[rng.Intn(2)],
 			LastSlot: rng.Intn(4) == 0, HeightStart: []int64{0, 0, -1, 1 << 40}[rng.Intn(4)],
